@@ -71,6 +71,10 @@ from .. import core, tla
 
 ALL_KINDS = {"a0", "b0", "an", "ad", "bd", "xa0", "xan", "pp", "pa", "t", "c"}
 ALL_DECLS = {"none", "p", "dp"}
+# the caller's namespaces= map as a dimension: names the reserved prefix xml itself ("x" "px" "dpx"), binds a second
+# prefix q to the namespace name of p ("pq")
+MAP_DECLS = {"x", "px", "dpx", "pq"}
+NSMAP_KINDS = {"a0", "an", "ad", "xa0", "xan", "t"}
 
 CONFIGS = {
     'quick': [
@@ -97,11 +101,19 @@ CONFIGS = {
         # names in the XML namespace: xml:lang attributes and an xml:a element (prefix xml is always in scope)
         ('N3-R1-xml', dict(N=3, Kinds={"a0", "ax", "xax", "xa0", "t"}, RootCfg="R1", Decls={"none"}, DocLevel=False)),
         ('N3-R3-xml', dict(N=3, Kinds={"a0", "ax", "xax", "xa0", "c"}, RootCfg="R3", Decls={"none"}, DocLevel=False)),
+        # namespace nodes as path subjects under every shape of the caller's namespaces= map
+        ('N3-R2-nsmap', dict(N=3, Kinds=NSMAP_KINDS, RootCfg="R2", Decls=MAP_DECLS, DocLevel=False)),
+        ('N3-R3-nsmap', dict(N=3, Kinds=NSMAP_KINDS, RootCfg="R3", Decls=MAP_DECLS, DocLevel=False)),
+        ('N2-R1-nsmap', dict(N=2, Kinds=NSMAP_KINDS, RootCfg="R1", Decls=MAP_DECLS, DocLevel=False)),
         # one wide fragment: 12 like-named children of a like-named root (two-digit positions)
         ('N13-R3-wide', dict(N=13, Kinds={"a0"}, RootCfg="R3", Decls={"none"}, DocLevel=False, Flat=True)),
         ('N13-R2-wide', dict(N=13, Kinds={"a0", "t"}, RootCfg="R2", Decls={"none"}, DocLevel=False, Flat=True)),
     ],
     'thorough': [
+        ('N4-R2-nsmap', dict(N=4, Kinds=NSMAP_KINDS, RootCfg="R2", Decls=MAP_DECLS, DocLevel=False)),
+        ('N3-R3-nsmap', dict(N=3, Kinds=NSMAP_KINDS, RootCfg="R3", Decls=MAP_DECLS, DocLevel=False)),
+        ('N3-R1-nsmap', dict(N=3, Kinds=NSMAP_KINDS, RootCfg="R1", Decls=MAP_DECLS, DocLevel=False)),
+        ('N3-R6-nsmap', dict(N=3, Kinds=NSMAP_KINDS, RootCfg="R6", Decls=MAP_DECLS, DocLevel=False)),
         ('N3-R1-xml', dict(N=3, Kinds={"a0", "ax", "xax", "xa0", "t"}, RootCfg="R1", Decls={"none"}, DocLevel=False)),
         ('N4-R3-xml', dict(N=4, Kinds={"a0", "ax", "xax", "xa0", "c"}, RootCfg="R3", Decls={"none"}, DocLevel=False)),
         ('N13-R3-wide', dict(N=13, Kinds={"a0"}, RootCfg="R3", Decls={"none"}, DocLevel=False, Flat=True)),
@@ -148,7 +160,8 @@ def set_alphabet(alpha: dict | None) -> None:
     b, un = ALPHA.get('b', 'b'), ALPHA.get('urn:n', 'urn:n')
     TAG.update({'b0': b, 'an': f'{{{un}}}a', 'bd': f'{{urn:d}}{b}'})
     ATTR.update({'xan': f'{{{un}}}a'})
-    NSMAP.update({'p': {'p': un}, 'dp': {'': 'urn:d', 'p': un}})
+    NSMAP.update({'p': {'p': un}, 'dp': {'': 'urn:d', 'p': un}, 'px': {'xml': XML_NS, 'p': un},
+                  'dpx': {'': 'urn:d', 'xml': XML_NS, 'p': un}, 'pq': {'p': un, 'q': un}})
 
 
 def render(pieces) -> str:
@@ -161,9 +174,14 @@ def name_classes() -> dict:
     return dict(uri_class=('digit-first' if un[:1].isdigit() else 'quote' if "'" in un else 'plain'),
                 name_class=('ascii' if b.isascii() else 'non-ascii'))
 TARGET = {'pp': 'pi', 'pa': 'a'}
-NSMAP = {'none': {}, 'p': {'p': 'urn:n'}, 'dp': {'': 'urn:d', 'p': 'urn:n'}}
-NS_IDX = {'xml': 1, '': 2, 'p': 3}
 XML_NS = 'http://www.w3.org/XML/1998/namespace'
+# the map handed to the API as namespaces= (xml.etree) / declared on the root element (lxml; libxml2 keeps no
+# xmlns:xml declaration, the explicit xml entry reaches the API through namespaces= only)
+NSMAP = {'none': {}, 'p': {'p': 'urn:n'}, 'dp': {'': 'urn:d', 'p': 'urn:n'},
+         'x': {'xml': XML_NS}, 'px': {'xml': XML_NS, 'p': 'urn:n'},
+         'dpx': {'': 'urn:d', 'xml': XML_NS, 'p': 'urn:n'}, 'pq': {'p': 'urn:n', 'q': 'urn:n'}}
+NS_IDX = {'xml': 1, '': 2, 'p': 3, 'q': 4}
+NS_MAP_CLASS = {'x': 'xml-explicit', 'px': 'xml-explicit', 'dpx': 'xml-explicit', 'pq': 'alias'}
 KIND_CLASS = {'a0': 'elem', 'b0': 'elem', 'an': 'elem', 'ad': 'elem', 'bd': 'elem', 'ax': 'elem',
               'xa0': 'attr', 'xan': 'attr', 'xax': 'attr',
               'pp': 'pi', 'pa': 'pi', 't': 'text', 'te': 'text', 'c': 'comment'}
@@ -276,7 +294,7 @@ class XDoc:
 
     def ns_uri(self, nid: int) -> str:
         j = nid % 100
-        return XML_NS if j == 1 else 'urn:d' if j == 2 else ALPHA.get('urn:n', 'urn:n')
+        return XML_NS if j == 1 else 'urn:d' if j == 2 else ALPHA.get('urn:n', 'urn:n')     # p and q: one name
 
     def project(self, items) -> list:
         """Result list of select() -> abstract ids; namespace nodes are URI strings -> ('nsuri', uri)."""
@@ -493,6 +511,8 @@ def run_case(case: dict):
         if what == 'shared-bulk':
             return sh.bulk_of(env, case['parser'])
         return sh.path_of(env, case['node'], case['route'], case['parser'])
+    if what == 'count':
+        return sum(1 for (i, _nd) in env.n2i.values() if i == case['node'])
     if what == 'string':
         return env.real_string(case['api'], case['node'], case.get('parser'))
     if what == 'bulk':
@@ -649,7 +669,7 @@ def expected_projection(doc: XDoc, n: int, mode: str) -> list:
     return [n]
 
 
-NS_OF_DECL = {'none': (1,), 'p': (1, 3), 'dp': (1, 2, 3)}
+NS_OF_DECL = {'none': (1,), 'p': (1, 3), 'dp': (1, 2, 3), 'x': (1,), 'px': (1, 3), 'dpx': (1, 2, 3), 'pq': (1, 3, 4)}
 
 
 def abstract_ids(parent, kind, decl, root_cfg) -> list:
@@ -729,6 +749,7 @@ def tree_worker(job):
         f = dict(kind=kind_of(kind, n), root=root_cfg)
         f.update(chain_flags(parent, kind, n))
         f.update(name_classes())
+        f['ns_map'] = NS_MAP_CLASS.get(decl, 'plain')
         if n and n < 100 and kind[n - 1] in TARGET:
             f['pi_target'] = TARGET[kind[n - 1]]
         f['parent_is_root'] = bool(0 < n < 100 and top_elem and parent[n - 1] == top_elem)
@@ -759,6 +780,15 @@ def tree_worker(job):
         env = Env(parent, kind, decl, lib, root_cfg)
         doc = env.doc
         real_ids = {i for (i, _nd) in env.n2i.values()}
+        # every node of the specification's tree is ONE state: the real node tree has exactly one node for it
+        # (two real nodes for one abstract node = two distinct nodes with the same path)
+        mult: dict = {}
+        for (i, _nd) in env.n2i.values():
+            mult[i] = mult.get(i, 0) + 1
+        for i in sorted(i for i, c in mult.items() if c != 1 and not isinstance(i, tuple)):
+            st['evaluations'] += 1
+            rec.fail(feat(i, api='node tree', check='injective', lib=lib, outcome='duplicate-node'),
+                     case(lib, what='count', node=i, xml=doc.xml(), namespaces=env.ns), 1, mult[i])
         if real_ids != set(all_nodes):
             raise tla.MachineryError(f'binder: nodes of the real tree {sorted(map(str, real_ids))} != nodes of the '
                                      f'specification {all_nodes} for {parent} {kind} {decl} {root_cfg} {lib}')
@@ -778,7 +808,7 @@ def tree_worker(job):
                     res = [('err', repr(e))]
                 if n >= 100:
                     got = [(r[0] or '', r[1]) if isinstance(r, tuple) else r for r in res]
-                    ok = got == [({1: 'xml', 2: '', 3: 'p'}[n % 100], doc.ns_uri(n))]
+                    ok = got == [({1: 'xml', 2: '', 3: 'p', 4: 'q'}[n % 100], doc.ns_uri(n))]
                 else:
                     ok = doc.project(res) == expected_projection(doc, n, 'select')
                 st['lx_evals'] += 1
